@@ -76,8 +76,6 @@ SHIM = r'''
         impl<A: Arb, B: Arb> Arb for (A, B) { fn arb() -> Self { let a = A::arb(); let b = B::arb(); (a, b) } }
         pub fn any<T: Arb>() -> T { T::arb() }
         pub fn assume(c: bool) { if !c { std::panic::panic_any(AssumeFailed); } }
-        #[macro_export] macro_rules! verif_cover { ($($t:tt)*) => {} }
-        pub use verif_cover as cover;
     }
 '''
 
@@ -88,7 +86,7 @@ def _replay_module(hf, stem, harness, vals):
     body = re.sub(r'mod verif_kani_\w+', 'mod verif_replay_%s' % stem, body, count=1)
     body = re.sub(r'(?m)^\s*#\[kani::[^\n]*\]\s*\n', '', body)
     body = re.sub(r'(?m)^\s*impl kani::Arbitrary for [^\n]*\{[^\n]*\}\s*\n', '', body)
-    body = body.replace('kani::cover!', 'verif_cover!')
+    body = re.sub(r'kani::cover!\([^;]*\);', '', body)
     # put shim + test right after the opening brace of the module
     ob = body.index('{')
     test = '''
@@ -195,9 +193,11 @@ def run(snapshot, stems, harnesses, jobs=8, timeout_s=1500, log=None):
         compile_error = bool(re.search(r'(?m)^error(\[E\d+\])?: ', out)) and 'Checking harness' not in out
         res = _parse(out, harnesses)
         # a refuted harness is run again alone to obtain the counterexample (concrete playback excludes -j)
-        for short, r in list(res.items()):
-            if r.get('status') == 'FAILED' and not r.get('unwinding'):
-                o2, _ = call(base + ['-Z', 'concrete-playback', '--concrete-playback=print', '--harness', short], 900)
+        n_cex = 0
+        for short, r in sorted(res.items(), key=lambda kv: kv[1].get('time_s') or 1e9):
+            if r.get('status') == 'FAILED' and not r.get('unwinding') and n_cex < 1:
+                n_cex += 1
+                o2, _ = call(base + ['-Z', 'concrete-playback', '--concrete-playback=print', '--harness', short], 600)
                 out += '\n==== counterexample run for %s ====\n' % short + o2
                 r2 = _parse(o2, [short]).get(short, {})
                 if r2.get('playback'):
